@@ -1551,6 +1551,100 @@ def ob_fun_body_scope(run, mir, rp, fam):
     run.samples.append({"obligation": ob.id, "environment_used": which, "ok_paths": n_ok})
 
 
+ARGGEN_RS = "src/check/context/arg/generic.rs"
+
+
+def signature_family(rp):
+    """What a declared signature promises about the number of arguments: a defaulted parameter may be omitted, a required one not."""
+    f = e2.Family(rp)
+    shape = "class Shape(def name: Str, def sides: Int := 4)\n    def label(self, prefix: Str) -> Str => return prefix + self.name\n"
+    f.add("field-argument-default-omitted", shape + 'def a := Shape("a")', "accept")
+    f.add("field-argument-default-given", shape + 'def a := Shape("a", 3)', "accept")
+    f.add("field-argument-too-many", shape + 'def a := Shape("a", 3, 4)', "reject")
+    f.add("field-argument-required-omitted", 'class Shape(def name: Str, def sides: Int)\n    def label(self) -> Str => return self.name\ndef a := Shape("a")', "reject")
+    f.add("field-argument-default-omitted-in-body", shape + 'def g(flag: Bool) -> Int =>\n    if flag then\n        def s := Shape("b")\n        return s.sides\n    return 0', "accept")
+    f.add("function-default-omitted", "def f(a: Int, b: Int := 1) -> Int => return a + b\ndef x: Int := f(1)", "accept")
+    f.add("function-required-omitted", "def f(a: Int, b: Int) -> Int => return a + b\ndef x: Int := f(1)", "reject")
+    f.add("method-default-omitted", "class A\n    def m(self, a: Int, b: Int := 1) -> Int => return a + b\ndef o := A()\ndef x: Int := o.m(1)", "accept")
+    f.add("method-required-omitted", "class A\n    def m(self, a: Int, b: Int) -> Int => return a + b\ndef o := A()\ndef x: Int := o.m(1)", "reject")
+    return f
+
+
+def ob_argument_signature(run, mir, rp, fam):
+    ob = run.ob("signature-records-defaults", "E2", "ClassArgument::try_from (a class argument that is also a field, `def x: T := e`) and "
+                "GenericFunctionArg::try_from (function, method and plain class arguments): on every successful path the recorded parameter has "
+                "has_default exactly when the declaration carries a default expression, the `mutable` flag of the declaration, the name "
+                "argument_name gives for its identifier, and is variadic exactly when the declaration says `vararg` (never for a field argument) - "
+                "this record is all call_parameters / unify_fun_arg know about the signature when they count arguments",
+                ["ClassArgument::try_from", "GenericFunctionArg::try_from"])
+    _rel, lay = ckern.node_enum()
+    claims, n_ok, free = [], 0, {}
+    for impl, variant, dflt in (("TryFrom<&AST> for ClassArgument", "VariableDef", "expr"), ("TryFrom<&AST> for GenericFunctionArg", "FunArg", "default")):
+        fn = e2.find1(mir, file=ARGGEN_RS, impl=impl, name="try_from")
+        ex = Exec(mir, max_paths=20000)
+        st = State()
+        vals, some = {}, None
+        mk = lambda n: ckern.mk_ast(variant + "." + n, opq(variant + "." + n + ".node", "Node"))[0]
+        for f in lay[variant]:
+            if f in ("mutable", "vararg"):
+                vals[f] = z3.Bool(variant + "." + f)
+            elif f == dflt:
+                vals[f], some = sym_option(variant + "." + f, mk(f), "Option<Box<AST>>")
+            elif f == "var":
+                vals[f] = mk(f)
+            elif f == "ty":
+                vals[f], _ = sym_option(variant + "." + f, mk(f), "Option<Box<AST>>")
+            else:
+                vals[f] = opq(variant + "." + f, f)
+        if some is None or "var" not in vals or not z3.is_bool(vals.get("mutable")):
+            raise Unsupported(f"Node::{variant} fields changed: {lay[variant]}")
+        free[variant + " has a default"] = some
+        ast, _ = ckern.mk_ast("ast", ckern.mk_node(variant, vals))
+        ends = e2.run_kernel(run, ex, fn, [Ref(ex.new_cell(st, ast))], st)
+        gfa = e2.rust_struct(ARGGEN_RS, "GenericFunctionArg")
+        for p in ends:
+            if result_kind(p) != "Ok":
+                continue
+            n_ok += 1
+            s = p.state
+            r = ex.project(s, ex.project(s, p.ret, ("v", "Ok")), ("f", 0), "X")
+            if variant == "VariableDef":
+                ca = e2.rust_struct(ARGGEN_RS, "ClassArgument")
+                r = r.fields[ca.index("fun_arg")] if isinstance(r, Agg) and r.names == ca else None
+            if not (isinstance(r, Agg) and r.names == gfa):
+                claims.append(z3.Not(conj(p.cond)))
+                continue
+            g = lambda k: r.fields[gfa.index(k)]
+            names = calls(p, "argument_name")
+            cl = [g("has_default") == some if z3.is_bool(g("has_default")) else z3.BoolVal(False),
+                  g("mutable") == vals["mutable"] if z3.is_bool(g("mutable")) else z3.BoolVal(False),
+                  g("vararg") == (vals["vararg"] if "vararg" in vals else z3.BoolVal(False)) if z3.is_bool(g("vararg")) else z3.BoolVal(False),
+                  z3.BoolVal(len(names) == 1)]
+            if len(names) == 1:
+                nm = ex.project(s, ex.project(s, names[0]["ret"], ("v", "Ok")), ("f", 0), "String")
+                cl.append(z3.And(names[0]["argvals"][0] == ex.to_val(s, vals["var"]), ex.to_val(s, g("name")) == ex.to_val(s, nm)))
+            claims.append(z3.Implies(conj(p.cond), conj(cl)))
+    if n_ok < 4:
+        raise Unsupported(f"{n_ok} Ok paths")
+    sfam = signature_family(rp)
+
+    def replay(model):
+        k, bad = sfam.run()
+        if bad:
+            roles = sorted(b["role"] for b in bad)
+            return {"reproduced": True, "role": "signature-arity:" + "+".join(roles), "failing_programs": roles,
+                    "detail": f"program {bad[0]['src']!r}: expected {bad[0]['expected']}, real verdict {bad[0]['got']}"}
+        return {"reproduced": False, "detail": f"all {k} programs behave as required"}
+    e2.prove(run, ob, ex, [], conj(claims), free, replay)
+    if ob.status == "discharged":
+        k, bad = sfam.run()
+        run.validated += k
+        if bad:
+            ob.status = "pending"
+            ob.inconclusive(f"signature family disagrees although the kernels are as specified: {bad[:2]}")
+    run.samples.append({"obligation": ob.id, "ok_paths": n_ok})
+
+
 def ob_unify_type(run, mir, rp, fam):
     ob = run.ob("unify-type-decision", "E2", "unify_type on two concrete (non-temporary) types: the superset test is asked "
                 "with the constraint's parent type as receiver and the child type as argument; an error of the test is "
@@ -1619,7 +1713,7 @@ def run(run):
                "outside: that a violation is still caught in every nesting context (branch forking in ConstrBuilder); the accepted-exactly-when direction for whole programs")
     run.trusted += ["rustc nightly MIR dump", "mirsym MIR semantics", "z3"]
     run.bounds = {"paths": "all paths of each kernel with loops cut at their headers"}
-    for f in (ob_call_parameters, ob_call_result, ob_compound_assignment, ob_method_parameters, ob_fn_value_arguments, ob_access_direction, ob_shadow_mapping, ob_operator_typing, ob_flow_constraints, ob_return, ob_id_from_var, ob_initialiser_scope, ob_fun_body, ob_fun_body_scope, ob_branch_scope, ob_arm_scope, ob_unify_type):
+    for f in (ob_call_parameters, ob_argument_signature, ob_call_result, ob_compound_assignment, ob_method_parameters, ob_fn_value_arguments, ob_access_direction, ob_shadow_mapping, ob_operator_typing, ob_flow_constraints, ob_return, ob_id_from_var, ob_initialiser_scope, ob_fun_body, ob_fun_body_scope, ob_branch_scope, ob_arm_scope, ob_unify_type):
         try:
             f(run, mir, rp, fam)
         except Unsupported as e:
